@@ -1,4 +1,6 @@
 import LyModel.Props.C07
+import LyModel.Props.C07Valdiff
+import LyModel.Props.C07Completion
 #print axioms LyModel.Props.C07.validate_idempotent
 #print axioms LyModel.Props.C07.dflt_flag_sound
 #print axioms LyModel.Props.C07.is_default_iff_rfc6243_fails
@@ -17,3 +19,14 @@ import LyModel.Props.C07
 #print axioms LyModel.Props.C07.autodel_case_exact
 #print axioms LyModel.Props.C07.validate_normal_form
 #print axioms LyModel.Props.C07.np_cont_dflt_reachable
+#print axioms LyModel.Props.C07.valdiff_exact_F177_fails
+#print axioms LyModel.Props.C07.valdiff_exact_F179_fails
+#print axioms LyModel.Props.C07.valdiff_exact_F194_fails
+#print axioms LyModel.Props.C07.valdiff_exact_F400_fails
+#print axioms LyModel.Props.C07.valdiff_exact_F400_fixed
+#print axioms LyModel.Props.C07.valdiff_exact_unchanged
+#print axioms LyModel.Props.C07.valdiff_exact_partial_validated
+#print axioms LyModel.Props.C07.implicit_valdiff_exact
+#print axioms LyModel.Props.C07.valdiff_exact_partial_fresh
+#print axioms LyModel.Props.C07.implicit_exact_tree_explicit
+#print axioms LyModel.Props.C07.implicit_exact_tree_nochoice
